@@ -61,18 +61,17 @@ Proof.
   pose proof (ssrR_cases y ny yq Ay Hy0 Hy1) as Cy.
   pose proof (ssrR_cases z nz zq Az Hz0 Hz1) as Cz.
   unfold trilin, trilin_core, cell, u_interp3d_v.
-  (* work on the un-expanded lets first: every rewritten term occurs once *)
-  rewrite (axis_dim _ _ Ax), (axis_dim _ _ Ay), (axis_dim _ _ Az),
-          (dim3_0 v _ _ _ Sv), (dim3_1 v _ _ _ Sv), (dim3_2 v _ _ _ Sv).
-  cbv beta iota delta [nleb nsub nmul nadd ndiv nabs nofZ NumR].
+  cbv beta iota zeta delta [nleb nsub nmul nadd ndiv nabs nofZ NumR]. cbn [fst snd].
+  name_selection u Eu.
+  rewrite ?(axis_dim _ _ Ax), ?(axis_dim _ _ Ay), ?(axis_dim _ _ Az),
+          ?(dim3_0 v _ _ _ Sv), ?(dim3_1 v _ _ _ Sv), ?(dim3_2 v _ _ _ Sv) in Eu |- *.
   rewrite (proj2 (Rleb_true _ _) Hx0), (proj2 (Rleb_true _ _) Hx1),
           (proj2 (Rleb_true _ _) Hy0), (proj2 (Rleb_true _ _) Hy1),
           (proj2 (Rleb_true _ _) Hz0), (proj2 (Rleb_true _ _) Hz1).
+  cbn [andb negb].
   remember (searchsorted_right x xq - 1)%Z as i1 eqn:Ei1. clear Ei1.
   remember (searchsorted_right y yq - 1)%Z as j1 eqn:Ej1. clear Ej1.
   remember (searchsorted_right z zq - 1)%Z as k1 eqn:Ek1. clear Ek1.
-  cbv zeta. cbn [fst snd andb negb].
-  name_selection u Eu.
   axis_split Cx i1 Eu; axis_split Cy j1 Eu; axis_split Cz k1 Eu; branch_done u.
 Qed.
 
